@@ -1027,6 +1027,12 @@ def sd13(F, R):
 @rule("SD14", ["C12", "C14"], floor=5,
       doc="identification handshake in acquire: starts with CMD0; CMD59 only when use_crc; CMD8(0x1AA) decides SD1 (ILLEGAL|IDLE) vs SD2 (echo 0xAA) with ACMD41 argument 0 vs 0x4000_0000; ACMD41 polled until READY; CMD58 only for SD2, SDHC iff (ocr[0] & 0xC0) == 0xC0")
 def sd14(F, R):
+    def _is_const5(z):
+        """R1_ILLEGAL_COMMAND | R1_IDLE_STATE, folded or not, either way round"""
+        z = strip_refs(z)
+        if z[:2] == ("c", 5):
+            return True
+        return z[0] == "bin" and z[1] in ("BitOr", "Add") and {strip_refs(z[2])[:2], strip_refs(z[3])[:2]} == {("c", 4), ("c", 1)}
     acq = F.fn(SD + "::acquire")
     cl = [c for c in F.closures_of(acq)]
     if not cl:
@@ -1119,18 +1125,13 @@ def sd14(F, R):
                         pairs[kind] = (list(vals_)[0], kb[0])
     R.require(pairs.get("SD1", (None,))[0] == 0 and pairs.get("SD2", (None,))[0] == 0x40000000, f, "acmd41-arg", "ACMD41 argument must be 0 for SD1 and 0x4000_0000 (HCS) for SD2; got %s" % {k: hex(v[0]) for k, v in pairs.items()}, f.loc(0))
     if "SD1" in pairs:
-        ok, _ = guarded(f, pairs["SD1"][1], g_cmp("Eq", True, lambda a: has_sub(a, lambda q: q[0] == "call" and q[1] and path_matches(q[1], "SdCardInner::card_command")), lambda z: z == ("c", 5, None) or tstr(z) in ("5", "BitOr(R1_ILLEGAL_COMMAND=4, R1_IDLE_STATE=1)")))
+        ok, _ = guarded(f, pairs["SD1"][1], g_cmp("Eq", True, lambda a: has_sub(a, lambda q: q[0] == "call" and q[1] and path_matches(q[1], "SdCardInner::card_command")), lambda z: _is_const5(z)))
         R.require(ok, f, "sd1-iff-illegal", "SD1 must be chosen exactly when CMD8 answers ILLEGAL_COMMAND|IDLE", f.loc(pairs["SD1"][1]))
     if "SD2" in pairs:
         ok, _ = guarded(f, pairs["SD2"][1], lambda g: g_cmp("Eq", True, None, lambda z: z[:2] == ("c", 0xAA))(g) or (g.kind == "value" and g.value == 0xAA))
         R.require(ok, f, "sd2-iff-echo", "SD2 must be chosen only when the CMD8 echo byte is 0xAA", f.loc(pairs["SD2"][1]))
     # every place that sets the kind: SD1 only on CMD8's illegal-command answer, SD2 only on the 0xAA echo (a later
     # "downgrade" - e.g. in the else of the OCR test - reports a version-2 card as version 1)
-    def _is_const5(z):
-        z = strip_refs(z)
-        if z[:2] == ("c", 5):
-            return True
-        return z[0] == "bin" and z[1] in ("BitOr", "Add") and {strip_refs(z[2])[:2], strip_refs(z[3])[:2]} == {("c", 4), ("c", 1)}
     kind_locals = set()
     for b_, i_, s_ in f.stmts():
         if s_["k"] == "Assign" and s_["p"]["proj"] and [e[2] for e in s_["p"]["proj"] if e[0] == "field"][-1:] == ["card_type"]:
@@ -1390,8 +1391,9 @@ def sd18(F, R):
         c59 = [(b, t) for b, t in f.calls() if call_matches(t, ("SdCardInner::card_command",)) and cmd_const(f.term_of_operand(t["args"][1], b))[0] == "CMD59"]
         R.require(len(c59) == 1, f, "cmd59-site", "expected one CMD59 in acquire", f.loc(0))
         for (b, t) in c59:
-            bad_edges = [(gb, gi) for (gb, gi, g) in all_guards(f) if g.kind == "bool" and g.term[0] == "cmp" and g.term[1] == "Eq" and g.truth is False
-                         and has_sub(g.term[2], lambda q: q[0] == "call" and q[1] and path_matches(q[1], "SdCardInner::card_command") and q[3] == b)]
+            from .ev import cmp_forms as _cf
+            _is59 = lambda x: has_sub(x, lambda q: q[0] == "call" and q[1] and path_matches(q[1], "SdCardInner::card_command") and q[3] == b)
+            bad_edges = [(gb, gi) for (gb, gi, g) in all_guards(f) if any(op == "Eq" and t_ is False and _is59(a_) for (op, a_, b_, t_) in _cf(g))]
             okb = bool(bad_edges)
             for (gb, gi) in bad_edges:
                 tgt = f.succ(gb)[gi][0]
